@@ -2,16 +2,18 @@ import AiocoapModel.Tcp.Frame
 /-!
 # The receiving side of a CoAP-over-TCP connection
 
-Model of `TcpConnection.data_received` (tcp.py:178-229), `_abort_with`/`_send_message`
-(tcp.py:117-133), `connection_made`/`connection_lost` as far as they write or report
-(tcp.py:137-176), `_TCPPooling._dispatch_incoming`/`_dispatch_error` (tcp.py:269-291) and
+Model of `TcpConnection.data_received` (tcp.py:209-265), `_abort_with`/`_send_message`
+(tcp.py:148-164), `connection_made`/`connection_lost` as far as they write or report
+(tcp.py:168-207), `_TCPPooling._dispatch_incoming`/`_dispatch_error` (tcp.py:305-327) and
 `RFC8323Remote._send_initial_csm`/`_process_signaling`/`abort` (rfc8323common.py:122-194), and
-`_TCPPooling.send_message` (tcp.py:251-265).
+`_TCPPooling.send_message` (tcp.py:287-301).
 
 This is the code after the fix "stop processing a TCP connection's data once it is aborted or
 released": `_process_signaling` returns right after `self.abort(...)`, a CSM is taken over into
 `_remote_settings` only when all its options were accepted, and `data_received` returns when the
-transport `is_closing()` after a signalling message.
+transport `is_closing()` after a signalling message — and after the fix "an empty message received
+over TCP ahead of the peer's CSM is ignored": the test for code 0.00 sits in `data_received`
+ahead of the "No CSM received" gate (tcp.py:256-259) and no longer in `_dispatch_incoming`.
 
 Observable outputs are, in order: messages handed to the token manager, bytes written to the
 stream transport, `transport.close()`, and errors handed to the token manager (which fails the
@@ -96,7 +98,7 @@ def abortMsg (text : Bytes) (bad : Option Nat) : Msg :=
       | some n => [⟨2, minBE n⟩],
     payload := text }
 
-/-- `abort(...)` → `_abort_with`: send the Abort, close the transport (tcp.py:124-127; the
+/-- `abort(...)` → `_abort_with`: send the Abort, close the transport (tcp.py:155-158; the
 transport is never `None` after `connection_made`) -/
 def abortOuts (text : Bytes) (bad : Option Nat) : List Out :=
   sendMessage (abortMsg text bad) ++ [.close]
@@ -127,7 +129,7 @@ def hasCritical : List Opt → Bool
   | o :: os => if o.num % 2 = 1 then true else hasCritical os
 
 /-- `_process_signaling(msg)` including the `except CloseConnection` of `data_received`
-(tcp.py:212-217): `_dispatch_error(self, e.args[0])`, `transport.close()` -/
+(tcp.py:243-248): `_dispatch_error(self, e.args[0])`, `transport.close()` -/
 def processSignaling (c : Conn) (m : Msg) : Conn × List Out :=
   if m.code = codeCSM then
     match csmOpts (c.csm.getD {}) m.opts with
@@ -153,11 +155,16 @@ def processSignaling (c : Conn) (m : Msg) : Conn × List Out :=
     let outs := abortOuts txtUnknownSignalling none
     (c.note outs, outs)
 
-/-- `_dispatch_incoming` (tcp.py:269-278, after the fix: an empty message returns) -/
+/-- `_dispatch_incoming` (tcp.py:305-311) -/
 def dispatchIncoming (m : Msg) : List Out :=
-  if m.code = 0 then []
-  else if 64 ≤ m.code ∧ m.code < 192 then [.response m]   -- `msg.code.is_response()`
+  if 64 ≤ m.code ∧ m.code < 192 then [.response m]        -- `msg.code.is_response()`
   else [.request m]
+
+/-- what the tail of the loop body of `data_received` (tcp.py:256-265) does with a message that is
+not a signalling message and that the CSM gate does not stop: an empty message is ignored
+(`if msg.code == 0: continue`), every other one goes to `_dispatch_incoming` -/
+def deliver (m : Msg) : List Out :=
+  if m.code = 0 then [] else dispatchIncoming m
 
 /-- `self._spool = self._spool[msglen:]` -/
 def Conn.consume (c : Conn) (n : Nat) : Conn := { c with spool := c.spool.drop n }
@@ -171,28 +178,29 @@ deriving Repr
 
 def step (c : Conn) : Step :=
   match extractSize c.spool with
-  | none => .wait                                          -- tcp.py:190
+  | none => .wait                                          -- tcp.py:221
   | some (to, tkl, len) =>
     let msglen := to + tkl + len
-    if msglen > c.maxSize then                             -- tcp.py:193
+    if msglen > c.maxSize then                             -- tcp.py:224
       let o := abortOuts txtOverlyLarge none
       .stop (c.note o) o
-    else if msglen > c.spool.length then .wait             -- tcp.py:197
+    else if msglen > c.spool.length then .wait             -- tcp.py:228
     else
       match decodeMessage (c.spool.take msglen) with
-      | none =>                                            -- tcp.py:203
+      | none =>                                            -- tcp.py:235
         let o := abortOuts txtFailedParse none
         .stop (c.note o) o
       | some m =>
-        let c1 : Conn := c.consume msglen                 -- tcp.py:210
+        let c1 : Conn := c.consume msglen                 -- tcp.py:241
         if m.code ≥ 224 then                               -- `msg.code.is_signalling()`
           let r := processSignaling c1 m
-          if r.1.closed then .stop r.1 r.2                 -- tcp.py:218 `is_closing()`: return
-          else .next r.1 r.2                               -- tcp.py:223 `continue`
-        else if c1.csm.isNone then                         -- tcp.py:225
+          if r.1.closed then .stop r.1 r.2                 -- tcp.py:249 `is_closing()`: return
+          else .next r.1 r.2                               -- tcp.py:254 `continue`
+        else if m.code = 0 then .next c1 []                -- tcp.py:256 empty message: `continue`
+        else if c1.csm.isNone then                         -- tcp.py:261
           let o := abortOuts txtNoCsm none
           .stop (c1.note o) o
-        else .next c1 (dispatchIncoming m)
+        else .next c1 (dispatchIncoming m)                 -- tcp.py:265
 
 /-- the `while True` loop; the `Bool` tells whether `data_received` left the loop by `return`
 (after an abort of its own, or because the transport is closing after a signalling message).  Fuel: every continuing iteration removes a frame (≥ 2 bytes) from the spool, so
@@ -225,7 +233,7 @@ def feedAll (c : Conn) : List Bytes → Conn × List Out
       let r' := feedAll r.1 xs
       (r'.1, r.2 ++ r'.2)
 
-/-- `connection_lost(None)` → `_dispatch_error(self, None)` (tcp.py:169-176) -/
+/-- `connection_lost(None)` → `_dispatch_error(self, None)` (tcp.py:200-207) -/
 def connectionLost : List Out := [.failPending .lost]
 
 /-- a whole session as the harness runs it: connect, receive the chunks, and if the transport
@@ -244,7 +252,7 @@ def noResponseOf : List Opt → Nat
   | [] => 0
   | o :: os => if o.num = 258 then beToNat o.val else noResponseOf os
 
-/-- `_TCPPooling.send_message(message, messageerror_monitor)` (tcp.py:251-265, after the fix
+/-- `_TCPPooling.send_message(message, messageerror_monitor)` (tcp.py:287-301, after the fix
 "keep the No-Response option on requests sent over TCP").  On a response the No-Response option
 is aiocoap's internal copy of the request's option (interfaces.py, `TokenInterface.send_message`):
 the response is dropped when bit `class - 1` of the value is set (`(nr or 0) & (1 << class_ - 1)`),
